@@ -19,7 +19,9 @@ RULE = ("frames with body length in {0,1,2,3,231,232,233,255,256,257,487,488,489
 ASSUMPTIONS = [
     "one reply frame is in flight at a time (lock-step protocol); recv honours bufsize",
     "a blocking socket with a timeout raises socket.timeout (an OSError) when nothing arrives; a closed peer yields b''",
-    "termination = at most len(frame)+64 recv calls (send: len(msg)+64 send calls)",
+    "termination = at most len(frame)+64 recv calls (send: len(msg)+64 send calls) AND at most 60*len+20000 executed library lines per call "
+    "(sys.monitoring LINE events; a legitimate one-byte-at-a-time receive needs about 6 per byte) - a loop that spins without touching the socket is "
+    "'did not terminate', not a wall-clock timeout",
 ]
 ANCHORS = [("pycomm3/socket_.py", "Socket.receive"), ("pycomm3/socket_.py", "Socket.send"), ("pycomm3/socket_.py", "Socket.connect")]
 
@@ -109,8 +111,26 @@ def compositions_from_cuts(n, cuts):
     return out
 
 
+class Enough(BaseException):  # not an Exception: the cases catch Exception to classify what the library raised
+    """the same non-termination has been witnessed often enough: every further case would burn its whole step budget first"""
+
+
 def run(ctx):
     res = common.Result("C12")
+    try:
+        return _run(ctx, res)
+    except Enough:
+        res.count("stopped-early-after-repeated-nontermination")
+        return res
+    finally:
+        fakesock.FakeNet.uninstall()
+        st_ = getattr(ctx, "_steps", None)
+        if st_ is not None:
+            st_.disarm()
+            st_.stop()
+
+
+def _run(ctx, res):
     import pycomm3
     from pycomm3.socket_ import Socket
     CommError = pycomm3.CommError
@@ -118,6 +138,25 @@ def run(ctx):
     quick = ctx.quick
     net = fakesock.FakeNet().install()
     net.call_budget = 10 ** 9   # this check has its own per-case call budgets
+    # a second, logical-step budget (LINE events inside the library): a loop that spins WITHOUT touching the socket never reaches the
+    # call budgets above and would otherwise end in the wall-clock watchdog, i.e. inconclusive instead of "did not terminate"
+    from vlib.monitors import StepBudget
+    steps = StepBudget().start()
+    steps.arm()
+    ctx._steps = steps
+
+    def guarded(fn, nbytes, *a):
+        steps.begin(60 * nbytes + 20000)
+        try:
+            return fn(*a)
+        except BudgetExceeded:
+            res.count("calls-that-did-not-terminate")
+            if res.counters["calls-that-did-not-terminate"] > 40:
+                res.violation("nonterminating-repeatedly", "more than 40 Socket.send()/receive() calls did not terminate within their step budget; run stopped", None)
+                raise Enough()
+            raise
+        finally:
+            steps.end()
 
     def new_sock(peer):
         net.endpoints[("10.9.8.7", 44818)] = peer
@@ -137,7 +176,7 @@ def run(ctx):
         peer.sock.recv = ad.recv
         res.ev()
         try:
-            got = s.receive()
+            got = guarded(s.receive, len(fr))
             exc = None
         except BudgetExceeded as b:
             res.violation(f"receive-nonterminating:{'complete' if prefix is None else after}",
@@ -233,9 +272,10 @@ def run(ctx):
         peer.sock.recv = ad.recv
         res.ev()
         try:
-            s.receive()
+            guarded(s.receive, len(fr1) + len(fr2))
             first = "returned"
-        except BudgetExceeded:
+        except BudgetExceeded as b_:
+            res.violation("receive-nonterminating:incomplete-frame", f"receive() of an incomplete frame ({cut} of {len(fr1)} bytes, then {after}) did not terminate: {b_}", None)
             continue
         except Exception as e:  # noqa
             first = type(e).__name__
@@ -243,7 +283,7 @@ def run(ctx):
         peer.sock.deliver(fr2)
         net.schedule = LimitedSchedule(recv_chunks=[rng.randint(1, 300) for _ in range(6)], limit=len(fr2) + 200)
         try:
-            got = s.receive()
+            got = guarded(s.receive, len(fr1) + len(fr2))
             exc = None
         except BudgetExceeded as b_:
             res.violation("receive-nonterminating:after-failed-receive", f"second receive on the same Socket did not terminate: {b_}", None)
@@ -281,7 +321,7 @@ def run(ctx):
             osock.send = faulty_send
         res.ev()
         try:
-            ret = s.send(msg)
+            ret = guarded(s.send, len(msg), msg)
             exc = None
         except BudgetExceeded as b:
             res.violation("send-nonterminating", f"Socket.send() did not terminate: {b} ({len(msg)}B, chunks {chunks[:12]}, fault {fault_kind}@{fault_after})",
@@ -327,5 +367,5 @@ def run(ctx):
     res.sample({"receive": {"frame_len": 280, "chunks": [3, 21, 1, 231, 24]}, "expect": "exact frame"})
     res.sample({"receive": {"frame_len": 280, "available": 10, "then": "eof"}, "expect": "CommError within 64 recv calls"})
     res.sample({"send": {"len": 524, "partial": [1, 22, 1, 500]}, "expect": "peer sees the same 524 bytes in order"})
-    fakesock.FakeNet.uninstall()
+    res.notes["max_line_events_in_one_call"] = steps.max_seen
     return res
